@@ -155,6 +155,15 @@ Theorem C12_task_txt_roundtrip_example : read_task_txt true (text_of w_lines) = 
 Proof. exact task_txt_roundtrip_example. Qed.
 Print Assumptions C12_task_txt_roundtrip_example.
 
+(* Any line-by-line reader whose line parser stops at a line without newline - whatever it does with complete lines -
+   reads from the first n bytes exactly what it reads from the copy cut at the last whole line (the task list reader
+   above is one instance; utils/dwarf.c load_debug_file is of this kind since afd718d, its per-line parser not modelled). *)
+Theorem C12_stop_reader_prefix : forall (E : Type) (parse : bytes -> step E) ls n,
+  (forall p, has_nl p = false -> parse p = SStop) -> forallb no_nl ls = true ->
+  run_text parse (firstn n (text_of ls)) = run_text parse (text_of (fst (cut_lines ls n))).
+Proof. exact @stop_reader_prefix. Qed.
+Print Assumptions C12_stop_reader_prefix.
+
 (* ---- sscanf on a cut line (the conversions of the task list and map readers) ---- *)
 (* For EVERY text written piece by piece for a format (each piece well-formed for its directive and followed by a
    byte that ends the conversion) and EVERY k: what sscanf converts from the first k bytes is exactly the values of
